@@ -82,3 +82,138 @@ def fix_crosshair_groupdict():
 
     relib._Match.groupdict = groupdict
     return True
+
+
+class FixedTime:
+    """Stand-in for the `time` module inside tornado modules: time() is a constant (CrossHair models the
+    real time.time() as a fresh symbolic float per call).  Everything else delegates to the real module."""
+
+    def __init__(self, now=1600000000):
+        self.now = now
+
+    def time(self):
+        return self.now
+
+    def __getattr__(self, k):
+        import time as _t
+        return getattr(_t, k)
+
+
+def fix_time(*modules):
+    clock = FixedTime()
+    for m in modules:
+        m.time = clock
+    return clock
+
+
+# ---- reference numeric-IP recogniser (ASCII only).  Mirrors what a numeric-host lookup accepts:
+# IPv4 in inet_aton notation (1-4 dot separated numbers, decimal / 0octal / 0xhex), IPv6 per RFC 4291
+# (1-4 hex digit groups, one "::", optional trailing dotted quad).  Zone ids ("%eth0") are outside.
+
+def _num(part: str):
+    """value of one inet_aton number or None"""
+    n = len(part)
+    if n == 0 or n > 12:
+        return None
+    if part[0] == "0" and n > 1:
+        if part[1] in "xX":
+            if n == 2:
+                return None
+            v = 0
+            for c in part[2:]:
+                if c in "0123456789":
+                    d = ord(c) - 48
+                elif c in "abcdef":
+                    d = ord(c) - 87
+                elif c in "ABCDEF":
+                    d = ord(c) - 55
+                else:
+                    return None
+                v = v * 16 + d
+            return v
+        v = 0
+        for c in part[1:]:
+            if c not in "01234567":
+                return None
+            v = v * 8 + (ord(c) - 48)
+        return v
+    v = 0
+    for c in part:
+        if c not in "0123456789":
+            return None
+        v = v * 10 + (ord(c) - 48)
+    return v
+
+
+def _is_v4_aton(s: str) -> bool:
+    parts = s.split(".")
+    k = len(parts)
+    if k > 4:
+        return False
+    vals = []
+    for p in parts:
+        v = _num(p)
+        if v is None:
+            return False
+        vals.append(v)
+    for v in vals[:-1]:
+        if v > 255:
+            return False
+    return vals[-1] < 256 ** (5 - k)
+
+
+def _is_v4_strict(s: str) -> bool:
+    parts = s.split(".")
+    if len(parts) != 4:
+        return False
+    for p in parts:
+        if not (1 <= len(p) <= 3):
+            return False
+        for c in p:
+            if c not in "0123456789":
+                return False
+        if len(p) > 1 and p[0] == "0":
+            return False
+        if int(p) > 255:
+            return False
+    return True
+
+
+def _is_v6(s: str) -> bool:
+    if ":" not in s:
+        return False
+    if s.count("::") > 1 or ":::" in s:
+        return False
+    has_gap = "::" in s
+    if has_gap:
+        left, right = s.split("::")
+        lparts = left.split(":") if left else []
+        rparts = right.split(":") if right else []
+    else:
+        lparts, rparts = s.split(":"), []
+    parts = lparts + rparts
+    n = 0
+    for i, p in enumerate(parts):
+        if i == len(parts) - 1 and "." in p and (rparts or not has_gap):
+            if not _is_v4_strict(p):
+                return False
+            n += 2
+            continue
+        if not (1 <= len(p) <= 4):
+            return False
+        for c in p:
+            if c not in "0123456789abcdefABCDEF":
+                return False
+        n += 1
+    if has_gap:
+        return n <= 7
+    return n == 8
+
+
+def ref_is_numeric_ip(s: str) -> bool:
+    if not s:
+        return False
+    for c in s:
+        if not (" " < c <= "~"):
+            return False
+    return _is_v4_aton(s) or _is_v6(s)
